@@ -64,6 +64,9 @@ SPELLINGS = (
     # decoding anywhere between the check and the open would make it a parent step
     ('pct2_dots', '%252e%252e/other/{F}', 'outside', 'other'),
     ('abs_pct2_dots', 'file://{W}/base/sand/%252e%252e/other/{F}', 'outside', 'other'),
+    # a relative location that names nothing under the base directory but an existing file under the process's
+    # working directory (which is outside the sandbox): resolving it anywhere but against the base reaches that file
+    ('rel_cwd_only', 'cwdonly/{F}', 'outside', 'cwdonly'),
     ('http', 'http://sim.test/r/{F}', 'remote', 'remote'),
     ('https_upper', 'HTTPS://sim.test/r/{F}', 'remote', 'remote'),
     ('ftp', 'ftp://sim.test/r/{F}', 'remote', 'remote'),
@@ -128,7 +131,8 @@ class World:
     def __init__(self, root):
         self.root = root
         for d, marker in (('base/sand', 'sand'), ('base/sand/sub', 'sand_sub'), ('base', 'parent'),
-                          ('base/other', 'other'), ('base/sand_evil', 'evil'), ('outside', 'outside')):
+                          ('base/other', 'other'), ('base/sand_evil', 'evil'), ('outside', 'outside'),
+                          ('outside/cwdonly', 'cwdonly')):
             p = os.path.join(root, d)
             os.makedirs(p, exist_ok=True)
             with open(os.path.join(p, 'inc.xsd'), 'w') as fp:
@@ -196,7 +200,7 @@ class C12(Check):
         # the correct behaviour there, not vacuity
         always = ('hint_meta_namespace', 'hint_on_meta_element')
         # (the twice-encoded spellings name nothing that exists: "not fetched" is the correct behaviour in every mode)
-        always_spell = ('pct2_dots', 'abs_pct2_dots')
+        always_spell = ('pct2_dots', 'abs_pct2_dots', 'rel_cwd_only')
         self.live = [p for p, r in zip(pairs, res) if r or p[0] in always or p[1] in always_spell]
         self.vacuous = [list(p) for p, r in zip(pairs, res) if not r and p[0] not in always and p[1] not in always_spell]
         self.points = [(a, m, s) for a in ALLOW for (m, s) in self.live]
@@ -380,6 +384,9 @@ class C12(Check):
         if case.get('othertree'):
             source = world_a.write('base/sand/main.xsd', text)
             counters['main_source_in_other_tree'] = 1
+        if case['spell'] == 'rel_cwd_only' and not case.get('relbase') and not case.get('emptybase'):
+            os.chdir(os.path.join(root, 'outside'))
+            counters['cwd_outside_holds_the_relative_location'] = 1
 
         schema = None
         outcome = {'exc': None, 'msg': None, 'warnings': []}
